@@ -34,7 +34,7 @@ site named `<lost>` / `popGuarded := false`) and a lost anchor.
 import ast
 import os
 from lib import core
-from . import lean_str, lean_bool
+from . import lean_str, lean_bool, parse_text
 
 ROOT = "einx/_src"
 SCAN = [
@@ -594,7 +594,7 @@ def class_set_attrs(tree):
 def scan_file(path):
     rel = os.path.relpath(path, core.REPO)
     with open(path) as f:
-        tree = ast.parse(f.read())
+        tree = parse_text(f.read(), rel)
     set_parents(tree)
     sites, draws = [], []
     fs = FunctionScan(rel, Typer(class_set_attrs(tree)), sites, draws)
@@ -606,7 +606,7 @@ def pop_guard():
     """Is `valid_parents.pop()` in `_parse_op` preceded (same block) by `if len(valid_parents) != 1: raise ...`?"""
     path = os.path.join(core.REPO, ROOT, "adapter/einx_from_namedtensor.py")
     with open(path) as f:
-        tree = ast.parse(f.read())
+        tree = parse_text(f.read(), os.path.relpath(path, core.REPO))
     set_parents(tree)
     pops = []
     for n in ast.walk(tree):
